@@ -294,6 +294,28 @@ func init() {
 			ip.ex.endPath("unsupported", "strconv.ParseFloat with symbolic bit size")
 		}
 		if !ok {
+			// bytes with a small finite set of feasible values (e.g. the case of an exponent
+			// letter) are enumerated, so that the real function runs on concrete text
+			bs2 := ip.strBytes(args[0])
+			all := true
+			buf := make([]byte, len(bs2))
+			for i, b := range bs2 {
+				if b.IsConst() {
+					buf[i] = byte(b.k)
+					continue
+				}
+				if n := ip.ex.domainSize(b); n > 0 && n <= 16 {
+					buf[i] = byte(ip.ex.Concretize(b, "ParseFloat text byte"))
+					continue
+				}
+				all = false
+				break
+			}
+			if all {
+				s, ok = string(buf), true
+			}
+		}
+		if !ok {
 			// Contract stub for symbolic text (the text->float mapping is trusted strconv):
 			// an arbitrary result constrained only by ParseFloat's documented contract.
 			ts := ip.ts
